@@ -26,7 +26,9 @@ display writes for the same call.  Characters are assumed one cell wide.  The co
 CODE VARIANT FLAGS (in `Cfg`): `bareBypass = true` is today's code, where `console.print()` /
 `console.log()` without arguments call `Console.line()` and bypass the render hooks (finding F19);
 `startGuard = false` is today's `Progress.start`, which pushes the hook, redirects io, hides the cursor
-and *then* calls `refresh()` unprotected.
+and *then* calls `refresh()` unprotected; `resetShape = false` is today's `stop`, which keeps the
+recorded shape of the last frame (a later `start` then erases rows that belong to finished output) and
+leaves `vertical_overflow` at `"visible"`.
 -/
 namespace RichModel.Live
 open RichModel
@@ -56,6 +58,7 @@ structure Cfg where
   redirectStderr : Bool := true
   bareBypass : Bool := true
   startGuard : Bool := false
+  resetShape : Bool := false
 deriving Repr, DecidableEq
 
 structure Task where
@@ -70,6 +73,7 @@ structure St where
   shape : Option (Nat × Nat) := none        -- `_live_render._shape` (width, height)
   renderable : Frame := []                  -- Live: lines the renderable yields; Progress: the tasks table built by the last refresh
   overflow : Overflow := .ellipsis          -- `Live.vertical_overflow` (mutated by `stop`)
+  overflow0 : Overflow := .ellipsis         -- `vertical_overflow` as saved on entry of the last `stop` (used by the repaired code only)
   hooks : Nat := 0                          -- len(console._render_hooks)
   stdoutDepth : Nat := 0                    -- how many FileProxy objects wrap the original sys.stdout
   stderrDepth : Nat := 0
@@ -252,20 +256,30 @@ def disableRedirect (st : St) : St :=
 /-- The `finally:` block of `stop`: restore io, pop the hook, show the cursor. -/
 def cleanup (st : St) : St := { disableRedirect st with hooks := st.hooks - 1 }
 
+/-- The repaired `stop` forgets the shape of the frame it leaves behind (`_live_render._shape = None`)
+and puts `vertical_overflow` back to what it was when `stop` was entered. -/
+def resetSt (cfg : Cfg) (st : St) : St :=
+  if cfg.resetShape then { st with shape := none, overflow := st.overflow0 } else st
+
+/-- `stop` after its last `refresh()` returned `r`: line feed, the `finally:` block, the transient erase. -/
+def stopTail (cfg : Cfg) (r : Res) : Res :=
+  match r.err with
+  | some e => { st := cleanup r.st, out := r.out ++ [.showCursor], err := some e }
+  | none =>
+    { st := resetSt cfg (cleanup r.st),
+      out := r.out ++ [.lf, .showCursor] ++ (if cfg.transient then restoreCursor (cleanup r.st).shape else []) }
+
+/-- The state `stop` hands to its last refresh: `_started = False`, and for a Live
+`vertical_overflow = "visible"`. -/
+def stopSt (cfg : Cfg) (st : St) : St :=
+  match cfg.kind with
+  | .progress => { st with started := false }
+  | _ => { st with started := false, overflow0 := st.overflow, overflow := .visible }
+
 /-- `Live.stop` / `Progress.stop`. -/
 def doStop (cfg : Cfg) (fails : Nat → Bool) (st : St) : Res :=
   if !st.started then { st := st }
-  else
-    let st0 := { st with started := false }
-    let st1 := match cfg.kind with
-      | .progress => st0
-      | _ => { st0 with overflow := .visible }
-    let r := doRefresh cfg fails st1
-    match r.err with
-    | some e => { st := cleanup r.st, out := r.out ++ [.showCursor], err := some e }
-    | none =>
-      let st2 := cleanup r.st
-      { st := st2, out := r.out ++ [.lf, .showCursor] ++ (if cfg.transient then restoreCursor st2.shape else []) }
+  else stopTail cfg (doRefresh cfg fails (stopSt cfg st))
 
 /-- `Live.start` / `Progress.start`. -/
 def doStart (cfg : Cfg) (fails : Nat → Bool) (st : St) : Res :=
@@ -284,6 +298,13 @@ def doStart (cfg : Cfg) (fails : Nat → Bool) (st : St) : Res :=
         else { st := r.st, out := .hideCursor :: r.out, err := some e }
     | _ => { st := st1, out := [.hideCursor] }
 
+/-- `add_task` up to the refresh: the new task is stored under the current index. -/
+def addTaskSt (st : St) (desc : Line) (visible : Bool) : St :=
+  { st with tasks := replaceTask st.tasks { id := st.taskIndex, desc := desc, completed := 0, visible := visible } }
+
+/-- `finally: self._task_index = TaskID(int(self._task_index) + 1)`. -/
+def bumpIndex (st : St) : St := { st with taskIndex := st.taskIndex + 1 }
+
 def step (cfg : Cfg) (fails : Nat → Bool) (st : St) : Op → Res
   | .start => doStart cfg fails st
   | .stop => doStop cfg fails st
@@ -299,12 +320,10 @@ def step (cfg : Cfg) (fails : Nat → Bool) (st : St) : Op → Res
     | .progress => { st := st }   -- not an operation of Progress (the driver answers `unmodelled`)
   | .refresh => doRefresh cfg fails st
   | .addTask desc visible =>
-    let t : Task := { id := st.taskIndex, desc := desc, completed := 0, visible := visible }
-    let st1 := { st with tasks := replaceTask st.tasks t }
-    let r := doRefresh cfg fails st1
+    let r := doRefresh cfg fails (addTaskSt st desc visible)
     match r.err with
     | some _ => r                                   -- raised before `_task_index` was advanced
-    | none => { r with st := { r.st with taskIndex := r.st.taskIndex + 1 } }
+    | none => { r with st := bumpIndex r.st }
   | .advance id n =>
     match findTask st.tasks id with
     | none => { st := st, err := some .keyError }
@@ -326,7 +345,7 @@ def Op.applies (k : Kind) : Op → Bool
   | .addTask _ _ | .advance _ _ | .setVisible _ _ _ | .removeTask _ => k == .progress
   | _ => true
 
-def initSt (ov : Overflow) (r : Frame) : St := { overflow := ov, renderable := r }
+def initSt (ov : Overflow) (r : Frame) : St := { overflow := ov, overflow0 := ov, renderable := r }
 
 /-- A history where the caller catches whatever an operation raises and goes on
 (`try: op() except: pass`): final state, everything written, the errors in order. -/
@@ -377,13 +396,17 @@ def shown (cfg : Cfg) (st : St) : Frame :=
     | some (w, h) => setShape (st.renderable.map (List.take cfg.width)) w h
   | _ => liveFrame cfg st.overflow st.renderable
 
-/-- Does the operation redraw the live display (when the hook is installed afterwards)? -/
+/-- Operations that call `refresh()` / print through the console. -/
 def Op.displays (k : Kind) : Op → Bool
   | .print _ | .printBare | .refresh | .addTask _ _ => true
   | .update _ r => r || k == .status
   | .setVisible _ _ r => r
-  | .start => k == .progress
   | _ => false
+
+/-- Does `op`, executed in state `st`, redraw the live display?  (A refreshing operation while the hook
+is installed; or `Progress.start`, which refreshes right after installing it.) -/
+def redraws (cfg : Cfg) (st : St) (op : Op) : Bool :=
+  (op.displays cfg.kind && st.hooks > 0) || (op == .start && cfg.kind == .progress && !st.started)
 
 structure View where
   printed : List Line := []
@@ -392,38 +415,43 @@ deriving Repr, DecidableEq
 
 /-- One non-`stop` operation (a bare print counts as printing one empty line, whatever the code does). -/
 def viewStep (cfg : Cfg) (st : St) (v : View) (op : Op) : View :=
-  let st' := (step cfg noFault st op).st
   { printed := match op with
       | .print ls => v.printed ++ ls
       | .printBare => v.printed ++ [[]]
       | _ => v.printed
-    frame := if op.displays cfg.kind && st'.hooks > 0 then shown cfg st' else v.frame }
+    frame := if redraws cfg st op then shown cfg (step cfg noFault st op).st else v.frame }
+
+/-- The frame the last refresh of `stop` puts on display (rendered `visible`). -/
+def stopFrame (cfg : Cfg) (st : St) : Frame := shown cfg (doRefresh cfg noFault (stopSt cfg st)).st
 
 /-- The final `stop`: last refresh (rendered `visible`), then nothing if transient. -/
 def viewStop (cfg : Cfg) (st : St) (v : View) : View :=
   if st.started then
-    { v with frame := if cfg.transient then [] else shown cfg (doStop cfg noFault st).st }
+    { v with frame := if cfg.transient then [] else stopFrame cfg st }
   else v
 
+/-- The specification-level run; `stop` ends it (well-formed histories have nothing after it). -/
 def specRun (cfg : Cfg) : St → View → List Op → St × View
   | st, v, [] => (st, v)
-  | st, v, [.stop] => ((doStop cfg noFault st).st, viewStop cfg st v)
-  | st, v, op :: rest => specRun cfg (step cfg noFault st op).st (viewStep cfg st v op) rest
+  | st, v, op :: rest =>
+    if op = .stop then ((doStop cfg noFault st).st, viewStop cfg st v)
+    else specRun cfg (step cfg noFault st op).st (viewStep cfg st v op) rest
 
 /-- Well-formed histories for the screen theorems (explicit and decidable):
-the screen has at least one row; every operation belongs to the display kind and raises nothing;
-`stop` occurs only as the last operation; every frame put on display fits the screen
-(automatic for `crop` / `ellipsis`); and a transient display leaves one row for the final line feed. -/
+every operation belongs to the display kind and raises nothing; `stop` occurs only as the last
+operation; every frame put on display fits the screen (automatic for `crop` / `ellipsis`); and a
+transient display leaves one row for the final line feed. -/
 def wfOps (cfg : Cfg) : St → List Op → Bool
   | _, [] => true
-  | st, [.stop] =>
-    let r := doStop cfg noFault st
-    r.err.isNone && (!st.started || !cfg.transient || (shown cfg r.st).length + 1 ≤ cfg.height)
   | st, op :: rest =>
-    let r := step cfg noFault st op
-    op != .stop && op.applies cfg.kind && r.err.isNone
-      && (!(op.displays cfg.kind && r.st.hooks > 0) || (shown cfg r.st).length ≤ cfg.height)
-      && wfOps cfg r.st rest
+    if op = .stop then
+      rest.isEmpty && (doStop cfg noFault st).err.isNone &&
+        (!st.started || !cfg.transient || (stopFrame cfg st).length + 1 ≤ cfg.height)
+    else
+      let r := step cfg noFault st op
+      op.applies cfg.kind && r.err.isNone
+        && (!redraws cfg st op || (shown cfg r.st).length ≤ cfg.height)
+        && wfOps cfg r.st rest
 
 def wf (cfg : Cfg) (ov : Overflow) (r0 : Frame) (h : List Op) : Bool :=
   1 ≤ cfg.height && wfOps cfg (initSt ov r0) h
